@@ -711,6 +711,69 @@ def check_operator(ctx, rep):
     rep.check('C16.K', 'Hamiltonian.potential_energy::minus-log-joint', ok, where(ham.module, pfn), None, "potential energy must be −joint()")
 
 
+def check_no_selection_on_the_outcome(ctx, rep):
+    """C16.K (addition) — a trajectory that was integrated is handed to the Metropolis test; only a *failure to evaluate* (the ValueError raised by the integrator's NaN guards)
+    leads to a new momentum draw.  Inside the retry `try` of HMCOperator._step nothing may raise on the basis of the computed energies: a `raise` there replaces proposals by
+    fresh ones depending on their Hamiltonian, which conditions the kernel on the outcome without the corresponding term in the acceptance ratio."""
+    cls = ctx.classes.get('torchtree.inference.hmc.operator.HMCOperator')
+    fn = cls.resolve('_step')[1]
+    tries = [t for t in ast.walk(fn) if isinstance(t, ast.Try) and any(isinstance(h.type, ast.Name) and h.type.id == 'ValueError' for h in t.handlers if h.type is not None)]
+    if len(tries) != 1:
+        rep.undecided('C16.K', 'HMCOperator._step::retry-block', where(cls.module, fn), f"{len(tries)} try/except ValueError blocks")
+        return
+    raises = [r for st in tries[0].body for r in ast.walk(st) if isinstance(r, ast.Raise)]
+    rep.check('C16.K', 'HMCOperator._step::integrated-proposals-always-reach-the-acceptance-test', not raises, where(cls.module, raises[0] if raises else tries[0]),
+              {'raises_inside_the_retry_block': [norm_text(getattr(r, '_parent', r))[:80] for r in raises]},
+              f"HMCOperator._step raises inside its retry block ({[norm_text(r)[:40] for r in raises]}): a trajectory that was integrated successfully is thrown away and redrawn "
+              f"depending on its outcome (e.g. its energy error) instead of being submitted to the acceptance test on H0 − H1; the transition kernel is then conditioned on that "
+              f"outcome and no longer leaves the target invariant")
+
+
+SIZE_POSITIVE = """
+def f(parameters, joint):
+    a = torch.ones(len(parameters))
+    b = torch.ones(sum(p.shape[-1] for p in parameters))
+    c = torch.eye(len(self.parameters), dtype=parameters[0].dtype)
+    d = torch.zeros(len(samples))
+"""
+
+
+def _object_count_sizes(tree):
+    out = []
+    for c in ast.walk(tree):
+        if isinstance(c, ast.Call) and (dotted_name(c.func) or '') in ('torch.ones', 'torch.eye', 'torch.zeros', 'torch.full', 'torch.empty') and c.args:
+            for x in ast.walk(c.args[0]):
+                if isinstance(x, ast.Call) and isinstance(x.func, ast.Name) and x.func.id == 'len' and x.args:
+                    a = x.args[0]
+                    nm = a.id if isinstance(a, ast.Name) else (a.attr if isinstance(a, ast.Attribute) else '')
+                    if nm in ('parameters', '_parameters'):
+                        out.append(c)
+    return out
+
+
+def check_momentum_space_dimension(ctx, rep):
+    """C16.K (addition) — vectors and matrices of the momentum space (mass matrix, momentum, variance estimates) have one entry per *coordinate*.  A tensor created in the hmc
+    package with a size `len(parameters)` has one entry per Parameter object; for a vector-valued parameter it broadcasts silently ((1,) against (d,)), K(p0) then has one
+    degree of freedom while K(p1) sums over d, and K0 − K1 is not the kinetic-energy change of the integrated momentum."""
+    t = ast.parse(SIZE_POSITIVE)
+    if [norm_text(c)[:30] for c in _object_count_sizes(t)] != ['torch.ones(len(parameters))', 'torch.eye(len(self.parameters)']:
+        raise AnalysisError('C16.K self-check of the object-count size pattern failed')
+    n = 0
+    for mname, m in sorted(ctx.prog.modules.items()):
+        if not mname.startswith('torchtree.inference.hmc'):
+            continue
+        n += 1
+        hits = _object_count_sizes(m.tree)
+        for k, c in enumerate(hits):
+            rep.bad('C16.K', f"{mname.replace('torchtree.', '')}::size-from-the-number-of-parameter-objects#{k}", where(m, c), {'construct': norm_text(c)[:80]},
+                    f"`{norm_text(c)[:60]}` sizes a momentum-space tensor by the number of Parameter objects, not by the number of coordinates: with a vector-valued parameter the "
+                    f"mass matrix / momentum has the wrong dimension and broadcasts silently (the kinetic energies before and after the trajectory then live in different spaces)")
+        if not hits:
+            rep.ok('C16.K', f"{mname.replace('torchtree.', '')}::momentum-space-sizes", where(m, m.tree), None)
+    if n < 4:
+        rep.incomplete('C16.K', 'hmc::momentum-space-sizes', '', f"only {n} hmc modules found")
+
+
 def run(ctx, rep):
     from sa import callbind
     callbind.run_for(ctx, rep, 'C16', 13)
@@ -729,7 +792,7 @@ def run(ctx, rep):
     rep.rule('C16.K', "HMCOperator returns K(p0) − K(p1) with both kinetic energies from the same M⁻¹ bracketing the integrator call; sample_momentum ↔ kinetic_energy consistent")
     rep.assumptions += ["Normal(0, s) has variance s²; MultivariateNormal(covariance_matrix=M) has covariance M", "U.backward() adds ∇U into .grad of the current leaves"]
     rep.not_decided += ["the O(ε²) energy error numerically", "round-off"]
-    for f, rule in ((check_integrator, 'C16.P'), (check_operator, 'C16.K')):
+    for f, rule in ((check_integrator, 'C16.P'), (check_operator, 'C16.K'), (check_no_selection_on_the_outcome, 'C16.K'), (check_momentum_space_dimension, 'C16.K')):
         try:
             f(ctx, rep)
         except Unsupported as u:
